@@ -34,7 +34,7 @@ def writers(gb, names):
     return found
 
 
-def make_runner(srcfile, discharge, tag, tu_text):
+def make_runner(srcfile, discharge, tag, tu_text, shared=None):
     """srcfile: repo-relative file whose statics are enumerated; discharge: {symbol-regex: how}"""
     def run(g):
         res = Result(g)
@@ -76,9 +76,9 @@ def make_runner(srcfile, discharge, tag, tu_text):
             for rx, h in discharge.items():
                 if re.fullmatch(rx, name):
                     how = h
-            ok_tl = tl or is_const or not written
+            ok_tl = tl or is_const or not written or (shared is not None and re.fullmatch(shared, name) is not None)
             res.obligations.append(dict(name='%s.threadlocal' % name, kind='named', file=os.path.join(REPO, srcfile), line='', func='',
-                                        desc='%s: static object %s is thread-local, or const, or has no writer (thread-local=%s const=%s written=%s)' % (tag, name, tl, is_const, written),
+                                        desc='%s: static object %s is thread-local, or const, or has no writer, or is one of the deliberately shared experiment globals (thread-local=%s const=%s written=%s)' % (tag, name, tl, is_const, written),
                                         status='SUCCESS' if ok_tl else 'FAILURE'))
             if is_const:
                 continue
